@@ -177,16 +177,50 @@ def showsFor (t : Target) (it : Item) : Bool :=
   (!(itemNeeds it).1 || (targetShows t).1) && (!(itemNeeds it).2.1 || (targetShows t).2.1) &&
     (!(itemNeeds it).2.2 || (targetShows t).2.2)
 
+/-! ### white-space items and what follows them
+
+A white-space item of a format reads *any* run of white space (also none), so the text that follows it
+must not itself begin with white space that belongs to the next item — unless the next item's reader
+skips white space anyway.  `%.f` prints nothing for a whole second, so after a white-space item it
+would hand the decision to whatever follows (`%S %.f .%3f` formats 12:34:05 as `05  .000`, which the
+reader takes for the fraction `.000` and then misses the literal dot: the real crate answers TOO_SHORT).
+`spaceSafe` is therefore part of `Unambiguous`. -/
+
+/-- a literal whose first byte is a visible ASCII character -/
+def visibleLiteral : Item → Bool
+  | .literal (b :: _) => decide (b < 128) && !((decide (9 ≤ b) && decide (b ≤ 13)) || b == 32)
+  | _ => false
+
+/-- items whose reader skips leading white space itself -/
+def leadInsensitive : Item → Bool
+  | .numeric _ _ | .space _ | .fixed .timezoneOffset | .fixed .timezoneOffsetColon => true
+  | _ => false
+
+/-- what may follow a white-space item in the part of the family that is proved: an item whose reader
+skips white space anyway (numbers, offsets), a visible literal, a name, am/pm, or the end -/
+def afterSpaceOk : Item → Bool
+  | .fixed .shortMonthName | .fixed .longMonthName | .fixed .shortWeekdayName | .fixed .longWeekdayName
+  | .fixed .lowerAmPm | .fixed .upperAmPm => true
+  | it => leadInsensitive it || visibleLiteral it
+
+def spaceSafe : List Item → Bool
+  | [] => true
+  | [_] => true
+  | .space _ :: b :: rest => afterSpaceOk b && spaceSafe (b :: rest)
+  | _ :: b :: rest => spaceSafe (b :: rest)
+
 /-- a century without a two-digit year (and without the full year) is not a year -/
 def groupUsable (y q r : Bool) : Bool := !(q && !y && !r)
 
 /-- the item lists of the family, per target type: every item is one the reader can invert and the
 target type can print (`showsFor`: no time item for a `NaiveDate`, no offset item for a naive value);
-a date-time needs a full date and a full time (and a
+a white-space item is followed by an item whose reader skips white space itself, a name,
+am/pm, a visible literal or the end (`spaceSafe`); a date-time needs a full date and a full time (and a
 zone-aware one an offset or a timestamp next to them), or the instant as a timestamp alone
 (`stampOnly`; a timestamp next to an incomplete set of date/time fields is outside the family) -/
 def Unambiguous (is : List Item) (t : Target) : Prop :=
-  (∀ it ∈ is, invertible it = true ∧ showsFor t it = true) ∧ separated is = true ∧
+  (∀ it ∈ is, invertible it = true ∧ showsFor t it = true) ∧
+  (separated is = true ∧ spaceSafe is = true) ∧
   groupUsable (carries is).year (carries is).yearDiv (carries is).yearMod = true ∧
   groupUsable (carries is).isoYear (carries is).isoYearDiv (carries is).isoYearMod = true ∧
   let c := carries is
@@ -315,8 +349,14 @@ def truncTime (is : List Item) (t : Time) : Time :=
     let ns := cutFrac t.frac (fracDigits is)
     ⟨t.secs, if t.frac ≥ 1000000000 then 1000000000 + ns else ns⟩
 
+/-- the date of a wall clock lies in the range of `NaiveDate` (a `DateTime` near the ends of the range can
+have a wall clock one day outside it: it is printed, with year ±262143/4, but cannot be read) -/
+def wallInRange (d : Date) : Bool :=
+  decide (Chrono.Extracted.MIN_YEAR ≤ d.year) && decide (d.year ≤ Chrono.Extracted.MAX_YEAR)
+
 /-- the value cut to the precision the format prints; `none` where the cut value does not exist
-(a local reading that leaves the supported range at the rounded offset) -/
+(a wall clock outside the range of `NaiveDate`, or a local reading that leaves the supported range at the
+rounded offset) -/
 def truncate_to_precision (is : List Item) (v : Value) : Option Value :=
   let c := carries is
   let fields := fullDate c && fullTime c
@@ -331,9 +371,13 @@ def truncate_to_precision (is : List Item) (v : Value) : Option Value :=
     if fields then
       match z.overflowing_naive_local with
       | .ok l =>
-        (match Zoned.from_local_datetime off' ⟨l.date, truncTime is l.time⟩ with
-         | .ok (some z') => some (.zoned z')
-         | _ => none)
+        -- the printed wall clock must be a `NaiveDateTime` (the reader builds one from the fields) …
+        if wallInRange l.date then
+          -- … and, put back at the printed offset, an instant of the supported range
+          (match Zoned.from_local_datetime off' ⟨l.date, truncTime is l.time⟩ with
+           | .ok (some z') => some (.zoned z')
+           | _ => none)
+        else none
       | .panic => none
     else
       -- timestamp only: the instant at whole seconds, at the printed offset (UTC without an offset
@@ -438,29 +482,6 @@ def RestOk (c : Ctx) : Item → List Nat → Prop
   | .fixed .nanosecond3, rest | .fixed .nanosecond6, rest | .fixed .nanosecond9, rest =>
     startsNonDigit rest = true ∨ rest = []
   | _, _ => True
-
-/-- a literal whose first byte is a visible ASCII character -/
-def visibleLiteral : Item → Bool
-  | .literal (b :: _) => decide (b < 128) && !((decide (9 ≤ b) && decide (b ≤ 13)) || b == 32)
-  | _ => false
-
-/-- items whose reader skips leading white space itself -/
-def leadInsensitive : Item → Bool
-  | .numeric _ _ | .space _ | .fixed .timezoneOffset | .fixed .timezoneOffsetColon => true
-  | _ => false
-
-/-- what may follow a white-space item in the part of the family that is proved: an item whose reader
-skips white space anyway (numbers, offsets), a visible literal, a name, am/pm, or the end -/
-def afterSpaceOk : Item → Bool
-  | .fixed .shortMonthName | .fixed .longMonthName | .fixed .shortWeekdayName | .fixed .longWeekdayName
-  | .fixed .lowerAmPm | .fixed .upperAmPm => true
-  | it => leadInsensitive it || visibleLiteral it
-
-def spaceSafe : List Item → Bool
-  | [] => true
-  | [_] => true
-  | .space _ :: b :: rest => afterSpaceOk b && spaceSafe (b :: rest)
-  | _ :: b :: rest => spaceSafe (b :: rest)
 
 /-- ASCII white space (what `%t`, `%n` and blanks in a format string are) -/
 def asciiWs (b : Nat) : Bool := (decide (9 ≤ b) && decide (b ≤ 13)) || b == 32
